@@ -283,14 +283,15 @@ def run(ctx):
         "cases_skipped_after_repeated_hangs": st["skipped"],
         "vm_compute_crosschecked_cases": nvm,
         "clauses": {"feasible + minimal cost": "checker proved sound for all inputs (c13_checked_solver_sound, via lp_cert_sound); raw algorithm: "
-                                               "feasibility of any returned plan proved for all inputs (c13_ssp_feasible), optimality bounded "
-                                               "(c13_optimal_bounded) + validated on every case (model plan and C++ plan certified)",
+                                               "feasibility of every returned plan (c13_ssp_feasible_partial) and absence of assertion failures / "
+                                               "empty-queue reads on the whole domain (c13_ssp_safe_partial) proved for all inputs; termination and "
+                                               "optimality bounded (c13_optimal_bounded) + validated on every case (model plan and C++ plan certified)",
                     "assignment": "c13_to_assignment_argmax proved for all plans; exact tie on the C++ plan",
                     "increaseCapacity": "c13_increase_capacity_post proved; exact tie"},
     })
     return ctx.finish(LEVEL, cov, [
         "model Ssp.v is hand-written; tied to transportation.cpp relationally (equal cost, certified C++ plan) on the cases of this run",
-        "termination of updateTree / the chain walks and absence of assertion failures of the raw algorithm are not proved for all inputs "
+        "termination of updateTree / the chain walks and minimality of the raw algorithm's plan are not proved for all inputs "
         "(bounded theorem + every case of the run); they depend on the optimality invariant of successive shortest paths",
         "machine-integer overflow (CostType = int) is outside this model (ideal Z); costsFromIntegers (float scaling) is not modelled: the model "
         "receives the C++'s scaled costs",
